@@ -113,6 +113,7 @@ func init() {
 		Explanation: "tbd",
 		Rules: []Rule{
 			{Name: "PROV/subject", Min: 10, Run: ruleSubjectProv, Doc: "subjects built from validated parts"},
+			{Name: "TABLE/reject-set", Min: 3, Run: ruleRejectSet(rejectSpecs()), Doc: "recognisers reject the excluded characters (constant propagation per character)"},
 		},
 	})
 }
